@@ -81,9 +81,15 @@ class NumpyQuantity(Generic[MagnitudeT], PlainQuantity[MagnitudeT]):
         care of the units.
         """
 
-        # Set input units if needed
+        # Set input units if needed: func is bound to this quantity's magnitude, so it
+        # is rebound to a converted copy (the quantity keeps its units and values)
         if func.__name__ in set_units_ufuncs:
-            self.__ito_if_needed(set_units_ufuncs[func.__name__][0])
+            converted = self.__converted_if_needed(set_units_ufuncs[func.__name__][0])
+            if converted is not self:
+                func = getattr(
+                    _to_magnitude(converted._magnitude, force_ndarray_like=True),
+                    func.__name__,
+                )
 
         value = func(*args, **kwargs)
 
@@ -208,11 +214,11 @@ class NumpyQuantity(Generic[MagnitudeT], PlainQuantity[MagnitudeT]):
         """
         return np.prod(self, *args, **kwargs)
 
-    def __ito_if_needed(self, to_units):
+    def __converted_if_needed(self, to_units):
         if self.unitless and to_units == "radian":
-            return
+            return self
 
-        self.ito(to_units)
+        return self.to(to_units)
 
     def __len__(self) -> int:
         return len(self._magnitude)
